@@ -119,7 +119,13 @@ def predicate_script(raw, P, X, C, A, Z, consts):
         x = X.split("|")
         exp = [str(pc), "1", std, sec if pc == 2 else "-"]
         if pc == 3:
-            t = bytes.fromhex(sec.split(":")[1])
+            try:
+                t = bytes.fromhex(sec.split(":")[1])
+            except (ValueError, IndexError):
+                # the wallet's reading of a binding script carries a second address that is not a binding target
+                # (e.g. a staking address leaked from another script): a finding, not a reason for the check to crash
+                probs.append("the wallet reads the script as binding but its second address %r is not a binding target" % sec)
+                return probs, key
             exp += [sec, "Chia" if (len(t) == 22 and t[20] == 1) else "MASS", str(t[21]) if len(t) == 22 else "0"]
         else:
             exp += ["-", "-", "-"]
